@@ -30,6 +30,9 @@ def run(rep, tier, prop="C01", extra_kinds=()):
             rep.bad(P + ".3", ix.site(ix.func(q), x.node), "`%s` does not depend on set iteration order" % x.text, "%s; source %s" % (x.sink, x.taint.src), key="ord|" + x.text)
         if not hits:
             rep.ok(P + ".3", ix.site(ix.func(q)), "%s: no unordered collection reaches the output text" % q)
+    # the reader side of the round trip: the serialised text (or the caller's script) reaches the lexer unmodified
+    from . import c10
+    common.guarded(rep, "C10.2", c10.c10_2, rep, ix)
     rep.rule(P + ".4", "script structure: metadata keywords, option and argument lists, statement lines and mode lists have the shapes the grammar prescribes; elements are separated by ', '", floor=8)
     common.guarded(rep, P + ".4", tser.structure, rep, P + ".4", ix, M)
     rep.rule(P + ".5", "array values are hoisted into declarations whose header and rows are in the language of arrayvar for the array's own dtype, one fresh declaration per array value, inserted before the statements", floor=10)
